@@ -28,17 +28,35 @@ GRAPHS = {
 XS = np.array([0.5, 1.0, 1.7, 2.4, 3.1, 4.0, 5.2])
 
 
-def _make_func(conds):
+def _gate(v):
+    """strict variant: a conditioner still at its start parameters (-5 + 0 x) makes the dependent's formula
+    non-finite, as log / sqrt shapes do; every fitted conditioner is > 0 on XS (data >= 1)"""
+    return np.where(v > -4.0, 0.0, np.nan)
+
+
+def _make_func(conds, strict=False):
     """own parameters p0, p1 (linear), conditioners enter as an offset evaluated at the same x"""
     if len(conds) == 0:
-        def f(x, p0=0.3, p1=0.7):
-            return p0 + p1 * x
+        if strict:
+            def f(x, p0=-5.0, p1=0.0):
+                return p0 + p1 * x
+        else:
+            def f(x, p0=0.3, p1=0.7):
+                return p0 + p1 * x
     elif len(conds) == 1:
-        def f(x, p0, p1, A):
-            return p0 + p1 * x + 0.5 * A(x) ** 2
+        if strict:
+            def f(x, p0, p1, A):
+                return p0 + p1 * x + 0.5 * A(x) ** 2 + _gate(A(x))
+        else:
+            def f(x, p0, p1, A):
+                return p0 + p1 * x + 0.5 * A(x) ** 2
     else:
-        def f(x, p0, p1, A, B):
-            return p0 + p1 * x + 0.5 * A(x) ** 2 + 0.25 * np.sin(B(x))
+        if strict:
+            def f(x, p0, p1, A, B):
+                return p0 + p1 * x + 0.5 * A(x) ** 2 + 0.25 * np.sin(B(x)) + _gate(A(x)) + _gate(B(x))
+        else:
+            def f(x, p0, p1, A, B):
+                return p0 + p1 * x + 0.5 * A(x) ** 2 + 0.25 * np.sin(B(x))
     return f
 
 
@@ -51,8 +69,9 @@ def _ydata(name, version, seed):
 class Wiring:
     """Real DependenceFunction objects for one graph, with `_fit` wrapped for recording."""
 
-    def __init__(self, vc, graph, decl, seed):
+    def __init__(self, vc, graph, decl, seed, strict=False):
         self.vc = vc
+        self.strict = strict
         self.deps = GRAPHS[graph]
         self.seed = seed
         self.objs = {}
@@ -60,7 +79,7 @@ class Wiring:
         for name in decl:
             conds = self.deps[name]
             kw = {k: self.objs[c] for k, c in zip(["A", "B"], conds)}
-            self.objs[name] = vc.DependenceFunction(_make_func(conds), **kw)
+            self.objs[name] = vc.DependenceFunction(_make_func(conds, strict), **kw)
         self.names = {id(o): n for n, o in self.objs.items()}
         self.start = {n: dict(o.parameters) for n, o in self.objs.items()}
         self.data = {}
@@ -81,7 +100,11 @@ class Wiring:
             return 2 * 10**9
         y = self.data[name]
         A = np.c_[np.ones_like(XS), XS]
-        sol, *_ = np.linalg.lstsq(A, y - self.offset(name), rcond=None)
+        with np.errstate(all="ignore"):
+            off = self.offset(name)
+        if not np.all(np.isfinite(off)):
+            return 2 * 10**9
+        sol, *_ = np.linalg.lstsq(A, y - off, rcond=None)
         cur = np.array(list(self.objs[name].parameters.values()), dtype=float)
         return Qc(float(np.max(np.abs(cur - sol) / (np.abs(sol) + 1e-2))), 1e9, 0, 2 * 10**9)
 
@@ -98,14 +121,17 @@ class Wiring:
         y = _ydata(name, version, self.seed)
         self.data[name] = y
         DF._fit = rec
+        exc = ""
         try:
             with warnings.catch_warnings():
                 warnings.simplefilter("ignore")
                 self.objs[name].fit(XS, y)
+        except Exception as e:  # noqa - the user's fit call failed: judged by FitCallSucceeds
+            exc = f"{type(e).__name__}: {e}"[:160]
         finally:
             DF._fit = orig
         hasattrs = all(hasattr(o, "_may_fit") and hasattr(o, "_fitted_conditioners") for o in self.objs.values())
-        ev = dict(f=name, d=version, internal=log,
+        ev = dict(f=name, d=version, internal=log, exc=exc,
                   pdev={n: self.pdev(n) for n in self.objs},
                   atstart={n: dict(o.parameters) == self.start[n] for n, o in self.objs.items()})
         if hasattrs:
@@ -117,15 +143,15 @@ class Wiring:
         return ev, hasattrs
 
 
-def proto_record(vc, rid, graph, decl, calls, seed):
-    w = Wiring(vc, graph, decl, seed)
+def proto_record(vc, rid, graph, decl, calls, seed, strict=False):
+    w = Wiring(vc, graph, decl, seed, strict)
     evs = []
     has = True
     for name, version in calls:
         ev, h = w.call(name, version)
         has = has and h
         evs.append(ev)
-    return dict(id=rid, kind="proto", graph=graph, decl=list(decl), events=evs, hasattrs=has)
+    return dict(id=rid, kind="proto", graph=graph, decl=list(decl), events=evs, hasattrs=has, strict=bool(strict))
 
 
 # ------------------------------------------------------------------------------------
@@ -172,13 +198,16 @@ def shapes():
         ("limited_growth2", limited_growth2, (0.09, 0.8), [[(0, 1), (0, None)]], False),
         ("poly3", poly3, (0.5, -0.2, 0.15), [None, [(None, None)] * 3], True),
         ("quadbasis", quadbasis, (1.1, 0.3), [None], True),
+        # residual of about 1e5..1e6 at the start parameters (1, 1, 1): scale dependence of SLSQP (D41)
+        ("poly3wide", poly3, (1.0, 0.5, 0.05), [[(0, None)] * 3, [(0, None), (0, None), (None, None)]], True),
     ]
 
 
 def objective(func, x, y, p, w):
     r = func(x, *p) - y
     if w is not None:
-        r = r / w
+        # the documented meaning of DependenceFunction(weights=...): sum(w_i * r_i**2)
+        return float(np.sum(w * r**2))
     return float(np.sum(r**2))
 
 
@@ -186,7 +215,7 @@ def fit_record(vc, rid, case):
     name, func, ptrue, bounds, linear = case["shape"]
     rng = np.random.default_rng(case["seed"])
     n = case["n"]
-    x = np.sort(rng.uniform(0.3, 6.0, size=n))
+    x = np.sort(rng.uniform(0.3, 20.0 if name.endswith("wide") else 6.0, size=n))
     y = func(x, *ptrue)
     y = y + case["noise"] * np.abs(y).mean() * rng.standard_normal(n)
     wkind = case["weights"]
@@ -209,7 +238,7 @@ def fit_record(vc, rid, case):
     df = vc.DependenceFunction(func, bounds=bounds, constraints=cons, weights=weights)
     p0 = tuple(df.parameters.values())
     rec = dict(id=rid, kind="fit", expected=expected, linear=bool(linear and ckind == "none" and _inactive(bounds, ptrue)),
-               inbounds=True, startadm=True, consmin=10**9, objstart=0, objfit=0, objpert=0, lindev=0, finite=True)
+               inbounds=True, startadm=True, consmin=10**9, objstart=0, objfit=0, objpert=0, rpert=2 * 10**9, rstart=2 * 10**9, lindev=0, finite=True)
     wv = None if weights is None else np.asarray(weights(x, y), dtype=float)
     try:
         with warnings.catch_warnings():
@@ -224,7 +253,7 @@ def fit_record(vc, rid, case):
         return rec
     p = np.array(list(df.parameters.values()), dtype=float)
     rec["finite"] = bool(np.all(np.isfinite(p)))
-    scale = objective(func, x, y, [0.0] * 0 + list(np.zeros(npar)), wv) if False else float(np.sum((y / (wv if wv is not None else 1.0)) ** 2))
+    scale = objective(func, x, y, [0.0] * 0 + list(np.zeros(npar)), wv) if False else float(np.sum((wv if wv is not None else 1.0) * y**2))
     scale = max(scale, 1e-300)
     lo = [(-np.inf if (bounds is None or b[0] is None) else b[0]) for b in (bounds or [(None, None)] * npar)]
     hi = [(np.inf if (bounds is None or b[1] is None) else b[1]) for b in (bounds or [(None, None)] * npar)]
@@ -253,12 +282,15 @@ def fit_record(vc, rid, case):
     rec["objfit"] = Qc(ofit / scale, 1e9, 0, 2 * 10**9)
     rec["objstart"] = Qc(ostart / scale if ostart == ostart else np.inf, 1e9, 0, 2 * 10**9)
     rec["objpert"] = Qc(best / scale, 1e9, 0, 2 * 10**9)
+    # objectives beyond the fixed-point range (> 2 x the zero-function objective) are compared as ratios
+    rec["rpert"] = Qc(best / ofit if ofit > 0 else np.inf, 1e9, 0, 2 * 10**9)
+    rec["rstart"] = Qc(ostart / ofit if (ofit > 0 and ostart == ostart) else np.inf, 1e9, 0, 2 * 10**9)
     p0a = np.array(p0, dtype=float)
     rec["startadm"] = bool(all(lo[i] <= p0a[i] <= hi[i] for i in range(npar)) and
                            (cons is None or all(float(c["fun"](p0a)) >= 0 for c in ([cons] if isinstance(cons, dict) else cons))))
     if rec["linear"]:
         cols = np.array([func(x, *np.eye(npar)[i]) for i in range(npar)]).T
-        sw = 1.0 if wv is None else 1.0 / wv
+        sw = 1.0 if wv is None else np.sqrt(wv)
         sol, *_ = np.linalg.lstsq(cols * (sw[:, None] if wv is not None else 1.0), y * sw, rcond=None)
         # the property speaks of INACTIVE bounds: the unconstrained solution itself must lie well inside them
         # (with 3 noisy points it can leave the bounds although the generating parameters are inside)
@@ -292,7 +324,7 @@ def fit_cases(ctx):
                 for ckind in ("none", "inactive_dict", "inactive_list", "active_dict", "active_list"):
                     if ckind != "none" and bounds is None and name not in ("linear2", "poly3"):
                         continue
-                    for _ in range(reps):
+                    for _ in range(reps * (4 if name == "poly3wide" and ckind.startswith("inactive") else 1)):
                         out.append(dict(shape=(name, func, ptrue, bounds, linear), weights=wkind, cons=ckind,
                                         n=int(rng.integers(3 if len(ptrue) <= 3 else 5, 21)),
                                         noise=float(rng.choice([0.0, 0.01, 0.05])),
@@ -329,25 +361,30 @@ def run(ctx):
                 "declaration order, call sequence); non-trivial = at least one dependent function involved. "
                 "fit quality: predefined + linear shapes x bounds kinds x weights x constraint kinds; distinct = case key")
     ctx.trusted = ["TLC evaluating spec/DepFitOps.tla", "numpy.linalg.lstsq as reference for linear shapes",
-                   "harness objective = sum(((f(x)-y)/sigma)^2) with sigma = weights(x, y) (curve_fit's convention)"]
+                   "harness objective = sum(w_i * (f(x_i)-y_i)^2) with w = weights(x, y) (the documented meaning of the weights callable)"]
     ctx.assumptions = ["local optimality is judged on a +-1e-2 relative stencil with tolerance 2e-6 of the objective scale; "
                        "global optimality of non-linear shapes is not claimed"]
     ctx.model_check("DepFit", ctx.pick("MC_DepFit_quick.cfg", "MC_DepFit_thorough.cfg"), must_cover=("Next", "NextRound"))
     ctx.model_check("DepFit", "MC_DepFit_mut.cfg", expect_violation="FittedAfterConditioners")
+    ctx.model_check("DepFit", "MC_DepFit_mut2.cfg", expect_violation="NoPrematureFit")
     behs = ctx.generate("DepFit", "Gen_DepFit.cfg")
     recs, keys, cases = [], [], []
     rid = 0
     for b in behs:
         calls = [(h["f"], h["d"]) for h in b["hist"] if h["op"] == "fit"]
-        rid += 1
-        recs.append(proto_record(vc, rid, b["graph"], b["decl"], calls, ctx.seed))
-        keys.append(f"proto graph={b['graph']} decl={','.join(b['decl'])} calls={' '.join(f'{f}{d}' for f, d in calls)}")
-        cases.append(dict(kind="proto", graph=b["graph"], decl=b["decl"], calls=calls))
+        for strict in (False, True):
+            rid += 1
+            recs.append(proto_record(vc, rid, b["graph"], b["decl"], calls, ctx.seed, strict))
+            keys.append(f"proto graph={b['graph']} decl={','.join(b['decl'])} calls={' '.join(f'{f}{d}' for f, d in calls)}"
+                        + (" strict" if strict else ""))
+            cases.append(dict(kind="proto", graph=b["graph"], decl=b["decl"], calls=calls, strict=strict))
     for graph, decl, calls in random_histories(ctx):
+        strict = bool(rid % 2)
         rid += 1
-        recs.append(proto_record(vc, rid, graph, decl, calls, ctx.seed))
-        keys.append(f"proto graph={graph} decl={','.join(decl)} calls={' '.join(f'{f}{d}' for f, d in calls)}")
-        cases.append(dict(kind="proto", graph=graph, decl=list(decl), calls=calls))
+        recs.append(proto_record(vc, rid, graph, decl, calls, ctx.seed, strict))
+        keys.append(f"proto graph={graph} decl={','.join(decl)} calls={' '.join(f'{f}{d}' for f, d in calls)}"
+                    + (" strict" if strict else ""))
+        cases.append(dict(kind="proto", graph=graph, decl=list(decl), calls=calls, strict=strict))
     nproto = len(recs)
     fc = fit_cases(ctx)
     for c in fc:
@@ -385,7 +422,7 @@ def replay(ctx, case):
     vc = import_virocon()
     c = case["case"]
     if c["kind"] == "proto":
-        r = proto_record(vc, 1, c["graph"], c["decl"], [tuple(x) for x in c["calls"]], ctx.seed)
+        r = proto_record(vc, 1, c["graph"], c["decl"], [tuple(x) for x in c["calls"]], ctx.seed, c.get("strict", False))
     else:
         sh = [s for s in shapes() if s[0] == c["shape"]][0]
         b = c["bounds"]
